@@ -36,7 +36,8 @@ def one(d):
     shutil.copytree(os.path.join(ROOT, 'kani'), os.path.join(w, 'kani'), ignore=shutil.ignore_patterns('target'))
     env['VERIF_KANI_DIR'] = os.path.join(w, 'kani')
     row = {}
-    for pid in plist:
+    mylist = sorted(set((name.split('-')[0] if x == 'target' else x) for x in plist))
+    for pid in mylist:
         t0 = time.time()
         c = sh('cd %s && python3 vf/driver.py %s' % (ROOT, pid), env=env)
         kind = 'VIOL' if c.returncode == 1 else ('ok' if c.returncode == 0 else 'MACH')
@@ -44,7 +45,7 @@ def one(d):
         row[pid] = dict(rc=c.returncode, kind=kind, inp=inp, s=round(time.time() - t0), lines=[l[:400] for l in c.stdout.split('\n') if l.startswith(('FAILED', 'FAILING', 'MACHINERY', 'VIOLATION'))][:5])
         json.dump(row, open(os.path.join(ROOT, 'gen', 'matrix_partial_%s.json' % name), 'w'))
     shutil.rmtree(w, ignore_errors=True)
-    print(name, ' '.join('%s:%s%s' % (p, row[p]['kind'], ('/' + row[p]['inp']) if row[p]['inp'] else '') for p in plist), flush=True)
+    print(name, ' '.join('%s:%s%s' % (p, row[p]['kind'], ('/' + row[p]['inp']) if row[p]['inp'] else '') for p in mylist), flush=True)
     return name, row
 with ThreadPoolExecutor(jobs) as ex:
     res = dict(ex.map(one, muts))
